@@ -228,6 +228,9 @@ func (r *Reconciler) reconcileConfiguration(ctx context.Context, config *configa
 
 func (r *Reconciler) updateConfigurationStatus(ctx context.Context, configuration *configapi.Configuration) error {
 	log.Debug(configuration.Status)
+	// The applied values are not changed by this controller: do not write them back from a read that a
+	// concurrent apply may have outdated.
+	configuration.Status.Applied.Values = nil
 	err := r.configurations.UpdateStatus(ctx, configuration)
 	if err != nil {
 		if !errors.IsNotFound(err) && !errors.IsConflict(err) {
